@@ -13,8 +13,14 @@ Models (assumed facts about the Python runtime, stated here once):
     one fact used: a key present => cnt >= 1 (so an empty inner dict has no key).
   * list values of `_deps`: (len, element, membership) with: every element is a member, every member is an element.
   * `weakref.ref(canvas, callback)` is an injective constructor `ref_of(canvas)` and `ref()` gives the canvas back:
-    the WeakKeyDictionary / weak reference LIFETIME (garbage collection, the cleanup callback firing) is OUT OF SCOPE —
-    weak references are modelled as plain (always live) references. `cleanup` is verified as an ordinary function.
+    WHEN a canvas is collected is out of scope — weak references are modelled as plain (always live) references and
+    `cleanup` is verified as an ordinary function. What IS covered of garbage collection: the callback can fire only for
+    a weak reference object that is still alive, i.e. (the cache holds the only references to them) one that is still a
+    key of `_refs` or a value of `_widgets` — `cleanup`'s precondition; and the class invariant full_inv (`_widgets` and
+    `_refs` are inverse to each other: rep_inv + no_stale_ref), kept by store (at the wrappers' call site) / invalidate /
+    cleanup / cached_render and established by clear, makes every such firing remove exactly the entry that held the
+    collected canvas (clause removes-only-an-entry-holding-the-dead-ref) and the dependants list only with the widget's
+    last entry. The end-to-end statement "garbage collection is invisible" is exercised by bounded/C06.py (gc-histories).
   * widgets, canvases, classes and sizes are opaque individuals (sorts CWidget, CCanvas, CClass, CSize): the cache
     never looks inside them apart from canvas.cacheable / widget_info / depends_on / children.
 """
